@@ -616,6 +616,8 @@ package jsonpatch
 // ---- RFC 7396 merge (C02, C07) ----
 
 //@ func pruneNulls
+//@   ensures[C02] parsed-objects-stay: forall m *lazyNode {m.which} {m.doc} :: old(allocated(m) && m.which == eDoc) ==> m.which == eDoc && m.doc == old(m.doc)
+//@   ensures[C02] null-members-removed: noNilMembers(n)
 //@   ensures[C02] members-only-disappear: forall m map[string]*lazyNode, k string {domsel(m, k)} {m[k]} :: old(allocated(m)) && k in m ==> old(k in m) && m[k] == old(m[k])
 //@   requires node: n != nil && childOK(n) && kind(val(*n.raw)) != KNull
 //@   requires options: options != nil
@@ -627,6 +629,7 @@ package jsonpatch
 //@   ensures[C02,C05] obj-ptrs: forall d *partialDoc {d.obj} :: old(allocated(d) && d.obj != nil) ==> d.obj == old(d.obj)
 
 //@ func pruneDocNulls
+//@   ensures[C02] parsed-objects-stay: forall m *lazyNode {m.which} {m.doc} :: old(allocated(m) && m.which == eDoc) ==> m.which == eDoc && m.doc == old(m.doc)
 //@   ensures[C02] members-only-disappear: forall m map[string]*lazyNode, k string {domsel(m, k)} {m[k]} :: old(allocated(m)) && k in m ==> old(k in m) && m[k] == old(m[k])
 //@   ensures[C02] no-null-members-left: forall k string {domsel(doc.obj, k)} :: k in doc.obj ==> doc.obj[k] != nil
 //@   requires doc: doc != nil && allocated(doc) && options != nil
@@ -643,6 +646,7 @@ package jsonpatch
 //@   invariant members-only-disappear: forall m map[string]*lazyNode, k string {domsel(m, k)} {m[k]} :: old(allocated(m)) && k in m ==> old(k in m) && m[k] == old(m[k])
 //@   invariant no-null-members-so-far: forall k string {domsel(doc.obj, k)} :: visited(k) && k in doc.obj ==> doc.obj[k] != nil
 //@   invariant same-map: doc.obj == old(doc.obj)
+//@   invariant parsed-objects-stay: forall m *lazyNode {m.which} {m.doc} :: old(allocated(m) && m.which == eDoc) ==> m.which == eDoc && m.doc == old(m.doc)
 
 //@ func pruneAryNulls
 //@   ensures[C02] maps-kept: forall m map[string]*lazyNode, k string {domsel(m, k)} {m[k]} :: old(allocated(m)) ==> ((k in m) <==> old(k in m)) && m[k] == old(m[k])
@@ -674,6 +678,7 @@ package jsonpatch
 //@   callsite[C02,C07] pruneNulls#1 new-member-pruned-only-when-applying: !mergeMerge
 //@   callsite[C02,C07] remove#1 null-deletes-only-when-applying: !mergeMerge && arg_key == k
 //@   callsite[C02,C07] set#1 new-member-stored: arg_key == k && arg_val == v
+//@   callsite[C02] set#1 a-member-taken-over-from-the-patch-is-pruned-when-applying: !mergeMerge ==> noNilMembers(v)
 //@   callsite[C02,C07] set#2 merged-member-stored: arg_key == k
 //@   callsite[C02,C07] merge#1 merges-current-with-patch-member: arg_cur == cur && arg_patch == v && (arg_mergeMerge <==> mergeMerge)
 //@   requires docs: doc != nil && patch != nil && allocated(doc) && allocated(patch) && options != nil && doc.obj != nil
